@@ -90,6 +90,25 @@ func (h H) requestsFromOwnLog(rule string) {
 			h.C.Check(rule+" no-silent-advance", key, iN < 0, w.Pos, "nextIndex advanced without entries being written")
 		}
 	}
+	// the entry just below the first one kept may have been compacted into the snapshot: its term must then
+	// come from the snapshot, and the log is consulted only when prevLogIndex is neither 0 nor the snapshot index
+	nSnap := 0
+	for _, t := range ts {
+		iG := evIndex(t, isCall("(*replication).getEntryTerm"))
+		iL := evIndex(t, isCall("(*snapshots).latest"))
+		if iG >= 0 {
+			g := t.Events[iG]
+			ok := iL >= 0 && iL < iG && len(t.Events[iL].Results) == 2 &&
+				t.EntailsAt(g, t.Events[iL].Results[0], "!=", "(replication.nextIndex - 1)") && t.EntailsAt(g, "(replication.nextIndex - 1)", "!=", "0")
+			h.C.Check(rule+" snapshot-boundary", h.name(fn)+" path["+t.Describe()+"]", ok, g.Pos, "the log is asked for the term at prevLogIndex although that index may be exactly the snapshot index (compacted): the follower could never be served again")
+		}
+		for _, e := range t.Events {
+			if e.Callee == "store" && e.Args[0] == "appendReq.prevLogTerm" && strings.HasPrefix(e.Args[1], "ret:(*snapshots).latest") {
+				nSnap++
+			}
+		}
+	}
+	h.C.Floor(rule+" (paths taking prevLogTerm from the snapshot)", nSnap, 1)
 	h.C.Floor(rule+" (request-writing paths)", nOK, 2)
 	h.C.Floor(rule+" (entry-writing paths)", nEntries, 1)
 	// writeEntriesTo reads GetN(from, n) of r.log and writes exactly those buffers
@@ -176,4 +195,31 @@ func (h H) matchIndexOnlyOnSuccess(rule string) {
 			}
 		})
 	}
+}
+
+// probeBackoffProgress: on prevEntryNotFound/prevTermMismatch nextIndex becomes
+// min(nextIndex-1, follower's lastLogIndex+1) — strictly smaller than before.
+func (h H) probeBackoffProgress(rule string) {
+	fn := h.fn("raft:(*replication).onAppendEntriesResp")
+	fi := h.P.Info(fn)
+	n := 0
+	for _, s := range h.storesIn(fn, "raft:replication.nextIndex") {
+		n++
+		v := fi.Sym(storeVal(s.Instr))
+		ok := false
+		if v.Op == "call" && v.Name == "min" && len(v.Args) == 2 {
+			for _, a := range v.Args {
+				base, den, off, add, good := core.LinNorm(a)
+				if good && base == "replication.nextIndex" && den == 1 && off == 0 && add <= -1 {
+					ok = true
+				}
+			}
+		}
+		h.C.Check(rule, "(*replication).onAppendEntriesResp store nextIndex", ok, h.pos(s.Instr), "after a rejected probe nextIndex must strictly decrease (min(nextIndex-1, …)); found "+v.String()+": the same probe would be repeated forever")
+		r := fi.MustCross(s.Instr, func(a core.Atom) bool {
+			return a.Op == "==" && a.L == "appendResp.resp.result" && (a.R == h.constStr("raft:prevEntryNotFound") || a.R == h.constStr("raft:prevTermMismatch"))
+		})
+		h.C.Check(rule+" only-on-mismatch", "(*replication).onAppendEntriesResp store nextIndex", r.OK, h.pos(s.Instr), "nextIndex lowered for a reply that is not a log mismatch")
+	}
+	h.C.Floor(rule+" (nextIndex stores in onAppendEntriesResp)", n, 1)
 }
